@@ -10,9 +10,10 @@
  * and written to <tmpdir>/<basename of path> for the path and FILE entry points.
  *
  * Output per case (flushed line by line so that an abort names the case):
- *   begin <id> size=<n> container=<0|1> pol=<seekpast>,<partial>,<chunk>
- *   L <entry> <rc> [<tables> <md5> <seq> <pcm> <type hex>]     entry: path file mem cb
- *   T <entry> <rc> <name hex> <type hex>
+ *   begin <id> size=<n> container=<0|1|2> pol=<seekpast>,<partial>,<chunk>
+ *   L <entry> <rc> [<tables> <md5> <seq> <pcm> <type hex>] opens=<n> <first path hex>    entry: path file mem cb
+ *   T <entry> <rc> <name hex> <type hex> opens=<n> <first path hex>
+ * opens = fopen/opendir calls made by the library during the call (companion files, temp files).
  *   end <id>
  * <tables> digest of every table of the loaded module (header fields, orders,
  * patterns, tracks, instruments incl. envelopes/maps/subinstruments, samples
@@ -26,8 +27,47 @@
 #include "common.h"
 #include "hio.h"
 #include "depackers/depacker.h"
+#include "rng.h"
+
+#include <dirent.h>
 
 static int nframes = 4;
+
+/* files the library opens by itself (-Wl,--wrap=fopen,--wrap=opendir): only a
+ * path load may resolve companion files */
+static int in_lib, lib_opens;
+static char first_open[256];
+
+FILE *__real_fopen(const char *path, const char *mode);
+DIR *__real_opendir(const char *path);
+
+static void note_open(const char *path)
+{
+	if (!in_lib)
+		return;
+	if (lib_opens++ == 0)
+		snprintf(first_open, sizeof(first_open), "%s", path ? path : "(NULL)");
+}
+
+FILE *__wrap_fopen(const char *path, const char *mode)
+{
+	note_open(path);
+	return __real_fopen(path, mode);
+}
+
+DIR *__wrap_opendir(const char *path)
+{
+	note_open(path);
+	return __real_opendir(path);
+}
+
+#define LIB(call) do { in_lib = 1; lib_opens = 0; first_open[0] = 0; call; in_lib = 0; } while (0)
+
+static void put_opens(void)
+{
+	printf(" opens=%d ", lib_opens);
+	put_hex(stdout, first_open, strlen(first_open));
+}
 
 struct cbstate {
 	const unsigned char *data;
@@ -194,6 +234,8 @@ static uint64_t digest_pcm(xmp_context ctx)
 	uint64_t h = FNV_INIT;
 	int i, rc;
 
+	/* the context's generator is seeded from time(): make rendering repeatable */
+	libxmp_set_random(&((struct context_data *)ctx)->rng, 0x1234567);
 	rc = xmp_start_player(ctx, 22050, 0);
 	H(rc);
 	if (rc != 0)
@@ -225,6 +267,7 @@ static void report_load(const char *entry, xmp_context ctx, int rc)
 		put_hex(stdout, c->m.mod.type, strnlen(c->m.mod.type, XMP_NAME_SIZE));
 		xmp_release_module(ctx);
 	}
+	put_opens();
 	putchar('\n');
 	fflush(stdout);
 }
@@ -235,6 +278,7 @@ static void report_test(const char *entry, int rc, struct xmp_test_info *ti)
 	put_hex(stdout, ti->name, strnlen(ti->name, XMP_NAME_SIZE));
 	putchar(' ');
 	put_hex(stdout, ti->type, strnlen(ti->type, XMP_NAME_SIZE));
+	put_opens();
 	putchar('\n');
 	fflush(stdout);
 }
@@ -246,7 +290,7 @@ static int is_container(const char *path, const unsigned char *buf, long size)
 	int ret, c;
 
 	if (size >= 3 && (!memcmp(buf, "MO3", 3) || !memcmp(buf, "Rar", 3)))
-		return 1;		/* external helper formats (path loads only) */
+		return 2;		/* external helper formats: need a file name (path only) */
 	h = hio_open(path, "rb");
 	if (!h)
 		return 0;
@@ -316,7 +360,9 @@ static int run_case(const char *id, const char *src, long trunc, int nedits, cha
 	vrng_seed(seed ^ fnv1a(FNV_INIT, id, strlen(id)));
 	cst.data = buf;
 	cst.size = size;
-	cst.seekpast = (int)vrng_below(3);
+	/* seek_func has fseek semantics here (beyond the end allowed): what a callback that
+	 * clamps or refuses such seeks changes is charted by the stream-op harness (D2) */
+	cst.seekpast = 0;
 	cst.partial = (int)vrng_below(2);
 	cst.chunk = (int)vrng_below(3) * 7;
 
@@ -326,40 +372,40 @@ static int run_case(const char *id, const char *src, long trunc, int nedits, cha
 
 	ctx = xmp_create_context();
 
-	rc = xmp_load_module(ctx, tmppath);
+	LIB(rc = xmp_load_module(ctx, tmppath));
 	report_load("path", ctx, rc);
 
 	f = fopen(tmppath, "rb");
-	rc = xmp_load_module_from_file(ctx, f, size);
+	LIB(rc = xmp_load_module_from_file(ctx, f, size));
 	report_load("file", ctx, rc);
 	fclose(f);
 
-	rc = xmp_load_module_from_memory(ctx, buf, size);
+	LIB(rc = xmp_load_module_from_memory(ctx, buf, size));
 	report_load("mem", ctx, rc);
 
 	cst.pos = 0;
-	rc = xmp_load_module_from_callbacks(ctx, &cst, cbs);
+	LIB(rc = xmp_load_module_from_callbacks(ctx, &cst, cbs));
 	report_load("cb", ctx, rc);
 
 	xmp_free_context(ctx);
 
 	memset(&ti, 0, sizeof(ti));
-	rc = xmp_test_module(tmppath, &ti);
+	LIB(rc = xmp_test_module(tmppath, &ti));
 	report_test("path", rc, &ti);
 
 	memset(&ti, 0, sizeof(ti));
 	f = fopen(tmppath, "rb");
-	rc = xmp_test_module_from_file(f, &ti);
+	LIB(rc = xmp_test_module_from_file(f, &ti));
 	report_test("file", rc, &ti);
 	fclose(f);
 
 	memset(&ti, 0, sizeof(ti));
-	rc = xmp_test_module_from_memory(buf, size, &ti);
+	LIB(rc = xmp_test_module_from_memory(buf, size, &ti));
 	report_test("mem", rc, &ti);
 
 	memset(&ti, 0, sizeof(ti));
 	cst.pos = 0;
-	rc = xmp_test_module_from_callbacks(&cst, cbs, &ti);
+	LIB(rc = xmp_test_module_from_callbacks(&cst, cbs, &ti));
 	report_test("cb", rc, &ti);
 
 	printf("end %s\n", id);
